@@ -235,7 +235,84 @@ def gen_cases(ctx):
             b0, b1 = b1, b0
         x0 = c if r.random() < 0.6 else c + r.choice([0.25, -0.5, 0.3])
         cases.append(dict(kind='poly', P=P, x0=x0, b0=b0, b1=b1, mi=50, xt=1e-13, rt=0.0, stream='multiple-root'))
+    # smooth monotone functions on wide brackets: Newton must be accepted for the run to finish within the cap
+    for _ in range(ctx.n(16, 120)):
+        t = r.randrange(3)
+        lead = r.choice([-1.0, 1.0]) * r.uniform(0.5, 2)
+        rt0 = r.uniform(-3, 3)
+        if t == 0:
+            kind, P = 'poly', poly_from_roots([rt0], lead)
+        elif t == 1:
+            c2 = r.uniform(0.5, 2) ** 2
+            cs = [lead, -lead * rt0, lead * c2, -lead * rt0 * c2]          # lead (x - r)(x^2 + c^2)
+            dcs = [3 * cs[0], 2 * cs[1], cs[2]]
+            kind, P = 'poly', [0.0] * (PAD - 4) + cs + [0.0] * (PAD - 4) + dcs
+        else:
+            kind, P = 'rat', [rt0, r.uniform(-0.6, 0.6)]
+        w = 10.0 ** r.uniform(2, 6)
+        b0, b1 = rt0 - w * r.uniform(0.05, 1), rt0 + w * r.uniform(0.05, 1)
+        if r.random() < 0.5:
+            b0, b1 = b1, b0
+        cases.append(dict(kind=kind, P=P, x0=guess(b0, b1), b0=b0, b1=b1, mi=50, xt=1e-13, rt=0.0, stream='wide-monotone'))
     return cases
+
+
+# ----------------------------------------------------------------------------- reference: textbook rtsafe in python floats
+
+def ref_iterations(case, cap):
+    """worst case of ref_iterations_k over the exact evaluation and two evaluations perturbed at rounding level (an
+    ill-conditioned root may be 'hit exactly' by luck in one rounding regime and never in another: jit fuses multiply-adds)"""
+    worst = 0
+    for k in (0, 1, -1):
+        n = ref_iterations_k(case, cap, k)
+        if n is None:
+            return None
+        worst = max(worst, n)
+    return worst
+
+
+def ref_iterations_k(case, cap, k):
+    """Numerical-Recipes rtsafe (Newton safeguarded by bisection, the algorithm the implementation documents) on the same
+    function in plain python floats; returns the number of iterations to convergence, or None if `cap` is not enough.
+    Used only to tell the known iteration-cap finding (the textbook algorithm needs more than max_iters too) from a defect."""
+    E = _setup()
+    _, val, der = E['fams'][case['kind']]
+    jnp = E['jnp']
+    P = jnp.array(case['P'])
+    f = lambda x: (float(val(x, P)) + k * 2e-16 * f_scale(case['kind'], case['P'], x), float(der(x, P)))
+    b0, b1 = case['b0'], case['b1']
+    fl, fh = f(b0)[0], f(b1)[0]
+    if not fl * fh < 0:
+        return None
+    xl, xh = (b0, b1) if fl < 0 else (b1, b0)
+    x = min(max(case['x0'], b0), b1)
+    dxo = abs(b1 - b0)
+    dx = dxo
+    F, DF = f(x)
+    for i in range(1, cap + 1):
+        if ((x - xh) * DF - F) * ((x - xl) * DF - F) > 0 or abs(2 * F) > abs(dxo * DF):
+            dxo = dx
+            dx = 0.5 * (xh - xl)
+            x = xl + dx
+            cv = x == xl
+        else:
+            dxo = dx
+            if DF == 0:
+                return None
+            dx = -F / DF
+            t = x
+            x = x + dx
+            cv = x == t
+        F, DF = f(x)
+        if F != F:
+            return None
+        if F < 0:
+            xl = x
+        else:
+            xh = x
+        if cv or abs(dx) < case['xt'] or abs(F) < case['rt']:
+            return i
+    return None
 
 
 # ----------------------------------------------------------------------------- running the implementation
@@ -399,6 +476,12 @@ def report(ctx, case, out, tag, bad):
     for clause, text, sig in bad:
         c = dict(case)
         c.update(out=list(out), mode=tag, clause=clause, sig=sig)
+        if sig == 'cap':
+            try:
+                need = ref_iterations(case, 4 * case['mi'] + 40)
+            except Exception:
+                need = -1
+            c['ref_iterations_needed'] = need        # None: not even 4*max_iters+40 iterations suffice
         if sig == 'nan_residual':
             try:
                 z = zero_slope_iterate(case)
@@ -426,6 +509,10 @@ def grad_cases(ctx):
         if t == 2:
             q = r.uniform(0.2, 3)
         out.append((t, p, q, r.uniform(-6, 6)))
+    # root exactly on a bracket end (left / right; the end fixed, or moving with p at a rate different from the root's)
+    for t in (3, 4, 5, 6):
+        for _ in range(ctx.n(5, 40)):
+            out.append((t, r.uniform(-3, 3), r.uniform(0.2, 3), r.uniform(-6, 6)))
     return out
 
 
@@ -435,14 +522,21 @@ def grad_eval(cases):
     fs = [lambda x, p, q: p * x ** 3 + x - q,
           lambda x, p, q: x / (1.0 + jnp.abs(x)) * p + 0.1 * x - 0.3 * q * p,
           lambda x, p, q: jnp.exp(0.3 * p * x) - q]
+    fend = lambda x, p, q: q * (x - p) + (x - p) ** 3          # root exactly x = p, dx/dp = 1, dx/dq = 0
+    fs += [fend] * 4
+
+    def bracket_for(t, p):
+        p0 = jax.lax.stop_gradient(p)
+        return {3: lambda: jnp.array([p0, p0 + 3.0]), 4: lambda: jnp.array([p0 - 3.0, p0]),
+                5: lambda: jnp.array([2 * p - p0, p0 + 3.0]), 6: lambda: jnp.array([p0 - 3.0, 2 * p - p0])}.get(t, lambda: jnp.array([-50.0, 50.0]))()
     res = []
     st = S.get_settings()
-    for t in range(3):
+    for t in range(7):
         idx = [i for i, c in enumerate(cases) if c[0] == t]
         if not idx:
             continue
         f = fs[t]
-        root = lambda p, q, x0, f=f: S.find_root(lambda x: f(x, p, q), x0, jnp.array([-50.0, 50.0]), st)[0]
+        root = lambda p, q, x0, f=f, t=t: S.find_root(lambda x: f(x, p, q), x0, bracket_for(t, p), st)[0]
         g = jax.jit(jax.vmap(jax.value_and_grad(root, (0, 1))))
         ps, qs, x0s = (jnp.array([cases[i][k] for i in idx]) for k in (1, 2, 3))
         xs, (gp, gq) = g(ps, qs, x0s)
@@ -472,7 +566,7 @@ def correspondence(ctx, model_ok):
         hist[h] = hist.get(h, 0) + 1
     ctx.count('distinct_nontrivial', len(distinct))
     ctx.cov['outcomes'] = hist
-    ctx.cov['streams'] = {s: sum(1 for c in cases if c['stream'] == s) for s in ('random', 'endpoint', 'multiple-root')}
+    ctx.cov['streams'] = {s: sum(1 for c in cases if c['stream'] == s) for s in ('random', 'endpoint', 'multiple-root', 'wide-monotone')}
     # a few direct (un-vmapped) calls of the public API must agree with the batched ones
     r = ctx.rng('single')
     for i in r.sample(range(len(cases)), min(ctx.n(6, 25), len(cases))):
@@ -607,7 +701,12 @@ def matches_finding(fl, f):
         return False
     out = c.get('out') or [0, True, -1, 0, 0]
     if w['sig'] == 'cap':
-        return out[0] != out[0] and not out[1] and out[2] == c.get('mi') and out[3] == out[3]
+        # the iteration cap also stops the textbook algorithm (to within 3 iterations): that, and only that, is finding F7
+        need = c.get('ref_iterations_needed', -1)
+        # ... or no tolerance was requested (x_tol = r_tol = 0: convergence only by exact floating-point coincidence) and the run
+        # stagnates at rounding level (last |dx| within 4 ulp of the bracket scale) when the cap stops it
+        stagnant = c.get('xt') == 0 and c.get('rt') == 0 and abs(out[4]) <= 4 * math.ulp(max(abs(c.get('b0', 0.0)), abs(c.get('b1', 0.0))))
+        return out[0] != out[0] and not out[1] and out[2] == c.get('mi') and out[3] == out[3] and (need is None or need >= c.get('mi', 0) - 3 or stagnant)
     if w['sig'] == 'zero_over_zero':
         return out[0] != out[0] and not out[1] and c.get('zero_slope_iterate') is not None
     return False
